@@ -287,6 +287,10 @@ type gRoute struct {
 	CloseKey string // for CLOSE of an open handle: key of the (never held) Close call it must make
 	HKind    string // kind of the handle the request names ("" none, "bogus", "stale")
 	Mismatch bool   // request type does not fit the kind of its handle
+	// Forbidden: request server only. A request that does not fit the kind of its handle must be refused without
+	// any handler call; this is the key (prefix) of the call that dispatching on the handle's method instead of the
+	// packet type would make (the former defect F13). Such a call is never held, so that the reply can be judged.
+	Forbidden string
 }
 
 // gRoutes walks the program in stream order. abs maps relative names to the paths the server sees.
@@ -335,9 +339,12 @@ func gRoutes(p gProg, abs func(string) string) []gRoute {
 			}
 			want := map[string]bool{"read": hd.Kind == "get" || hd.Kind == "rw", "write": hd.Kind == "put" || hd.Kind == "rw"}[o.K]
 			r.Mismatch = !want
-			if rs && hd.Kind == "dir" {
-				r.Sim.Gate = num("ls:" + obj)
-			} else {
+			switch {
+			case rs && r.Mismatch && hd.Kind == "dir":
+				r.Forbidden = "ls:" + obj + "#"
+			case rs && r.Mismatch:
+				r.Forbidden = fmt.Sprintf("rw:%s:%d", obj, o.Off)
+			default: // the os-backed server passes the call to the file; the kernel refuses what the open mode forbids
 				r.Sim.Gate = fmt.Sprintf("rw:%s:%d", obj, o.Off)
 			}
 		case "readdir":
@@ -351,7 +358,7 @@ func gRoutes(p gProg, abs func(string) string) []gRoute {
 			case hd.Kind == "dir":
 				r.Sim.Gate = num("ls:" + obj)
 			case hd.Kind == "get" || hd.Kind == "put":
-				r.Sim.Gate = fmt.Sprintf("rw:%s:0", obj)
+				r.Forbidden = fmt.Sprintf("rw:%s:0", obj)
 			}
 		case "fstat":
 			if live {
